@@ -3,6 +3,7 @@ package props
 import (
 	"bytes"
 	"crypto"
+	crand "crypto/rand"
 	"fmt"
 	"math/rand"
 	"runtime"
@@ -129,6 +130,26 @@ func buildC17Shared(g *model.Gen) (*c17Shared, error) {
 				s.enames = append(s.enames, "evidence:decoded:"+k.Name)
 			}
 			s.evKeys = append(s.evKeys, k.Pub)
+		}
+	}
+	// a shared decoded Evidence of a token this library's encoder would not have
+	// written byte for byte (claims in reversed key order), properly signed
+	if env, perr := refcose.Parse(s.tokens[1]); perr == nil {
+		if n, derr := refcbor.DecodeAll(env.Payload); derr == nil && n.K == refcbor.Map && len(n.Items) >= 4 {
+			rev := refcbor.MapOf()
+			for q := len(n.Items) - 2; q >= 0; q -= 2 {
+				rev.Items = append(rev.Items, n.Items[q], n.Items[q+1])
+			}
+			pay := refcbor.Encode(rev)
+			k := s.signers[1%len(s.signers)]
+			prot := refcbor.Encode(refcbor.MapOf(refcbor.I(1), refcbor.I(coseAlgID[k.Name])))
+			if sg, serr := k.Signer.Sign(crand.Reader, refcose.SigStructure(prot, pay)); serr == nil {
+				if d, derr := psatoken.DecodeEvidenceFromCOSE(sign1Bytes(prot, nil, pay, sg)); derr == nil {
+					s.ev = append(s.ev, d)
+					s.evKeys = append(s.evKeys, k.Pub)
+					s.enames = append(s.enames, "evidence:decoded:foreign-key-order")
+				}
+			}
 		}
 	}
 	// a shared decoded Evidence whose protected header spells the algorithm as TEXT
@@ -384,7 +405,14 @@ func c17Op(s *c17Shared, r *rand.Rand, gid int, clock func() int64) c17Event {
 				out += fmt.Sprint(err1 == nil, err2 == nil, e1 != nil && e1.Claims != nil)
 				_, err3 := psatoken.DecodeClaimsFromJSON([]byte(`{"psa-profile":"PSA_IOT_PROFILE_1","eat-profile":"http://arm.com/psa/2.0.0"}`))
 				_, err4 := psatoken.DecodeClaimsFromJSON([]byte(`{"eat-profile":"http://example.com/unregistered"}`))
-				return out + fmt.Sprint(err3 == nil, err4 == nil)
+				// documents that are NOT well-formed, broken at a position that depends on the
+				// operation: the full error text (it names the position) is part of the result
+				cut := 1 + (gid*31+len(d)/3)%(len(d)-1)
+				broken := append(append(append([]byte{}, d[:cut]...), '}', '#'), d[cut:]...)
+				_, err5 := psatoken.DecodeClaimsFromJSON(broken)
+				_, err6 := psatoken.DecodeAndValidateClaimsFromJSON(d[:cut])
+				_, err7 := psatoken.DecodeClaimsFromCBOR(w[:1+cut%len(w)])
+				return out + fmt.Sprint(err3 == nil, err4 == nil) + errStr(err5) + "|" + errStr(err6) + "|" + errStr(err7)
 			}
 		case 7:
 			// the embedding-aware codec (extension profiles) under concurrency,
